@@ -302,8 +302,11 @@ def nat_pipeline(h):
         'set_type': lambda s: set_type('v', type='number', resources=s),
         'validate': lambda s: validate(resources=s),
         'printer': lambda s: printer(resources=s),
+        # whole-resource steps: the selected ones are merged / dropped, every other resource passes through as it was
+        'concatenate': lambda s: concatenate({'v': [], 't': []}, dict(name='merged_target', path='merged_target.csv'), resources=s),
+        'delete_resource': lambda s: delete_resource(s),
     }
-    for _ in range(h.n(16, 400)):
+    for _ in range(h.n(72, 600)):
         names = h.rng.choice(names_sets)
         data = [[dict(v=h.rng.randint(0, 3), t='t%d' % j) for j in range(h.rng.randint(0, 4))] for _ in names]
         form = h.rng.choice(['list', 'str', 'int', 'none'])
@@ -331,15 +334,22 @@ def nat_pipeline(h):
         if ref[0] != 'ok':
             continue
         if got[0] != 'ok':
-            # a step may legitimately fail on the selected resources (e.g. select_fields finds nothing); the frame claim
-            # is about successful runs
-            h.check(True, None, None)
+            # a step may legitimately fail on the selected resources (e.g. select_fields finds nothing, concatenate refuses a
+            # selection that is not consecutive); the frame claim is about successful runs.  A run that dies because streams and
+            # descriptors no longer pair up is not such a rejection.
+            cause = getattr(got[2], 'cause', got[2])
+            broken = 'non-iterator' in str(cause) or isinstance(cause, (StopIteration, RuntimeError)) or \
+                (pname in ('concatenate', 'delete_resource') and not isinstance(cause, AssertionError) and bool(selected))
+            h.check(not broken, P + pname, (pname, sel, names, data), 'runs, or rejects the configuration', (got[1], str(cause)[:200]))
             continue
         for n in names:
             if n in selected:
                 continue
             h.check(n in got[1] and got[1][n] == ref[1][n], P + pname, (pname, sel, names, data),
                     ref[1].get(n), got[1].get(n), note='non-selected resource %r changed' % n)
+
+
+nat_pipeline.shards = 6
 
 
 def _items():
